@@ -291,7 +291,7 @@ def r4(R, M):
                      "DeformationGradientTensor(self.ubi, B) with B chosen by the same test; tensor rotations are U.T.U^T and U^T.T.U")
     gm = M["grain"]
     for meth, want in (("eps_grain_matrix", "finite_strain_ref"), ("eps_sample_matrix", "finite_strain_lab")):
-        fn = gm.func("grain.%s" % meth)
+        fn = gm.ifunc("grain.%s" % meth)          # an extracted 'reference B' / 'deformation gradient' helper is read in place
         calls = [c for c in ast.walk(fn) if isinstance(c, ast.Call) and isinstance(c.func, ast.Attribute) and c.func.attr.startswith("finite_strain_")]
         R.shape(len(calls) == 1, "C10.R4", GR, "grain.%s" % meth, "the finite_strain_* call")
         R.check(calls[0].func.attr == want and len(calls[0].args) == 1 and src(calls[0].args[0]) == "m", "C10.R4", GR, calls[0].lineno, "grain.%s" % meth,
